@@ -63,6 +63,10 @@ pub trait Check: Sync {
     fn units(&self, tier: Tier) -> usize;
     fn run_unit(&self, tier: Tier, unit: usize, cx: &mut Cx);
     fn meta(&self, tier: Tier) -> Meta;
+    /// Short label of a unit, used in the signature of process crashes
+    fn unit_label(&self, _tier: Tier, _unit: usize) -> String {
+        String::new()
+    }
 }
 
 #[derive(Clone, Debug)]
@@ -690,7 +694,8 @@ pub fn check_main(check: &dyn Check, tier: Tier) -> i32 {
         }
         for (u, s, how) in &o.crashed_cases {
             agg.crashes += 1;
-            let v = json!({"sig": format!("process-crash {}", crash_kind(how)), "unit": u, "sub": s,
+            let label = check.unit_label(tier, *u as usize);
+            let v = json!({"sig": format!("process-crash {} {}", crash_kind(how), label).trim_end().to_string(), "unit": u, "sub": s,
                 "desc": {"crash": how}, "detail": format!("subject killed the worker process: {how}"), "count": 1});
             match meta.crash_policy {
                 CrashPolicy::Violation => Agg::merge_viol(&mut agg.violations, &v),
